@@ -271,6 +271,9 @@ def make_observations(spec, cohort, form):
     raise ValueError(form)
 
 
+BOTH_KW = {"seed": 7, "n_iter": 5, "progress_bar": False}
+
+
 def make_individual_parameters(spec):
     ns = int(spec.get("ns", 0))
     ip = IndividualParameters()
@@ -363,12 +366,15 @@ def call(model, op, inputs, recorder=None):
     """Run the public call; returns the call's result (None for fit)."""
     kind = op[0]
     rec = recorder.installed() if recorder is not None else contextlib.nullcontext()
+    # "custom" calls also carry keyword arguments next to the settings object (documented: "if provided, the fit will rely on
+    # these settings"): whatever the call makes of them, the caller's settings object must come out untouched
+    extra = dict(BOTH_KW) if variant_of(op) == "custom" else {}
     with _quiet(), rec:
         if kind == "fit":
-            model.fit(inputs["data"], algorithm_settings=inputs["settings"])
+            model.fit(inputs["data"], algorithm_settings=inputs["settings"], **extra)
             return None
         if kind == "personalize":
-            return model.personalize(inputs["data"], algorithm_settings=inputs["settings"])
+            return model.personalize(inputs["data"], algorithm_settings=inputs["settings"], **extra)
         if kind == "estimate":
             return model.estimate(inputs["timepoints"], inputs["individual_parameters"])
         if kind == "simulate":
